@@ -56,12 +56,29 @@ def box_tasks(tier):
                           two, harness_pre=pre, reach=[("token consumed", "G_tokens == G_tokens0 - 1"), ("token kept", "G_tokens == G_tokens0")], native=nat2, **kw))
     return units, T
 
+def bds_tasks(tier):
+    """BD_Shape<int8_t>::CC76_extrapolation_assign (no tokens): the upper-bound clause, on the BD-shape unit of check C03"""
+    import C03
+    cxx, w, sg = TYPES["s8"]
+    u = Unit("C08", "bds_s8", "units/C03/bds.cc", defs={"VT": cxx, "T_W": w, "T_SIGNED": sg}, roots="re:^(w_(cc76|closure)$|ST_|ENC_|POL_)",
+             cut=["re:BD_Shape<.*>::throw_", "re:Bit_Matrix::", "re:operator==\\(.*Bit_Matrix"], stubs=["common.c", "c03.c"])
+    T = []
+    for d in (() if tier == "quick" else (1,)):      # ~5-13 minutes (two closures inside): thorough tier only; dimension 2 does not fit in memory
+        n = d + 1
+        bound = {"unwind": max(n + 1, 4), "note": "space dimension %d (matrix order %d), at most 3 stop points; matrix contents, status flags, stop-point values and ghost point arbitrary; loops unwound with unwinding assertions" % (d, n)}
+        T.append(Task("bds/s8/CC76_extrapolation_assign/dim%d" % d, u, "FN_cc76", ["C08/bds_widen.h"], [Var("uint8_t", "b0"), Var("uint8_t", "b1"), Var("uint8_t", "b2"), Var("uint32_t", "nb")],
+                      "FN_cc76(&G_X.s, &G_Y.s, (CN_T *)G_bstop, (CN_T *)(G_bstop + G_nbstop), (uint32_t *)0)", harness_pre=C03.setup(True) + "\n  G_bstop[0] = b0; G_bstop[1] = b1; G_bstop[2] = b2; G_nbstop = nb;",
+                      bounded=bound, timeout=3000, object_bits=9, defs={"N": n, "PT_RANGE": "((int64_t)1 << %d)" % (w + 2)}, split_post=True, mem_gb=40,
+                      group="bd shape s8", reach=[("point in x", "G_satX0"), ("a bound was extrapolated", "G_satX0 && !G_satY0")]))
+    return ([u] if T else []), T
+
 def build(tier):
     units = []; tasks = []
     combos = [("s8", "nat"), ("s8", "rat")] if tier == "quick" else [(t, p) for t in ("s8", "s16", "s32", "s64", "u8") for p in ("nat", "rat")]
     for (tt, pol) in combos:
         u = unit_for(tt, pol); units.append(u); tasks.append(cc76_task(u, tt, pol))
     bu, bt = box_tasks(tier); units += bu; tasks += bt
+    su, st = bds_tasks(tier); units += su; tasks += st
     return units, tasks
 
 def main(tier, only=None):
